@@ -167,6 +167,18 @@ def c08_jobs(tier):
         des("objectqueue", "progress", b, dl, procs=3, prios="0,1,1", budget=L, oq=1,
             ops="oqput0,oqget,hold0,hold1,tadd1,int0,int1,stop0,stop1,exit",
             script0="oqput0,oqput0,hold1", script1="oqget,hold1,oqget", script2="oqget,oqput0"),
+        des("objectqueue-cap2-p4", "progress", b, dl, procs=4, prios="0,0,1,1", budget=3, oq=2,
+            ops="oqput0,oqget,hold0,hold1,tadd1,int0,int1,stop0,exit",
+            script0="oqput0,oqput0,oqput0", script1="oqput0,oqput0", script2="hold1,oqget,oqget", script3="hold1,oqget"),
+        des("priorityqueue-cap2-p4", "progress", b, dl, procs=4, prios="0,0,1,1", budget=3, pq=2,
+            ops="pqput0,pqput1,pqget,pqcancel,hold0,hold1,tadd1,int0,int1,stop0,exit",
+            script0="pqput0,pqput1,pqput0", script1="pqput1,pqput0", script2="hold1,pqget,pqget", script3="hold1,pqget"),
+        des("buffer-cap2-p4", "progress", b, dl, procs=4, prios="0,0,1,1", budget=3, buf=2,
+            ops="bput1,bput2,bget1,bget2,hold0,hold1,tadd1,int0,int1,stop0,exit",
+            script0="bput2,bput1", script1="bput1,bput1", script2="hold1,bget1,bget1", script3="hold1,bget1"),
+        des("pool-cap2-p4", "progress", b, dl, procs=4, prios="0,0,1,1", budget=3, pool=2,
+            ops="pacq1,pacq2,prel1,prel2,hold0,hold1,tadd1,int0,int1,stop0,exit",
+            script0="pacq2,hold1,prel1,prel1", script1="pacq1,hold1", script2="pacq1,hold1", script3="hold1,pacq1"),
         des("priorityqueue", "progress", b, dl, procs=3, prios="0,1,1", budget=L, pq=1,
             ops="pqput0,pqput1,pqget,pqcancel,hold0,hold1,tadd1,int0,int1,stop0,stop1,exit",
             script0="pqput0,pqput1,hold1", script1="pqget,hold1,pqget", script2="pqget,pqput0"),
@@ -341,6 +353,9 @@ def c11_jobs(tier):
             script0="bput2,hold1,bput5", script1="bput5,hold1", script2="bget1,hold1,bget5", script3="bget5,hold1"),
         des("cap1", "buffer", b, dl, procs=4, prios="0,1,0,1", budget=3, buf=1, ops=ops,
             script0="bput2,hold1,bput1", script1="bput1,hold1", script2="bget2,hold1,bget1", script3="bget1,hold1"),
+        des("cap10-huge", "buffer", b, dl, procs=3, prios="0,0,1", budget=3, buf=10,
+            ops="bput5,bput0m,bget1,bget5,hold1,tadd1,int0,int1,exit",
+            script0="bput5,bput0m,hold1", script1="hold1,bget1,int0", script2="hold2,bget5"),
         des("unlimited", "buffer", b, dl, procs=3, prios="0,0,1", budget=3, buf="max",
             ops="bput1,bput5,bput0m,bget1,bget5,bget0m,hold1,tadd1,int0,int1,int2,exit",
             script0="bput0m,hold1,bput5", script1="bget5,hold1", script2="bget0m,hold1"),
